@@ -11,7 +11,7 @@ for ID in "$@"; do
     n=$(basename $(dirname $d))
     if ! git apply --check $d 2>/dev/null; then echo "$ID $n: DOES-NOT-APPLY"; continue; fi
     git apply $d
-    out=$(cd /verif && VERIF_SCRATCH=/var/tmp/verif.seeded.$ID ./bin/verifctl check $ID 2>&1); rc=$?
+    out=$(cd /verif && VERIF_SCRATCH=/var/tmp/verif.seeded.$ID.$$ ./bin/verifctl check $ID 2>&1); rc=$?
     git checkout -q -- . ; git clean -fdq
     cls=$(echo "$out" | grep "class=" | sed 's/.*class=\([^ ]*\).*/\1/' | sort | uniq -c | sort -rn | awk '{printf "%s(%s) ", $2, $1}')
     echo "$ID $n: exit=$rc $cls"
